@@ -312,6 +312,7 @@ def check(prog: Program, res: Result) -> None:
     _wire.check_peak_wiring(prog, res, "C06-wire")
     from . import c12
     res.borrow(c12.check_split, "C06-split", prog)
+    res.borrow(c12.check_topk, "C06-split", prog)   # the max_instances selection keeps coordinates and values of the same peaks
     res.assumptions.append("completeness/soundness against a brute-force neighbour scan, plateaus and the half-patch bound are not decided")
 
 
